@@ -27,7 +27,7 @@ T == <<"p", "q">>                       \* everything lives under root/p/q
 P(x) == T \o x
 NoFile == <<"NONE">>
 
-Optional == {"in", "inl", "g", "sib", "sec", "lnkf", "lnkd", "back", "lnkx", "lnkl", "cap"}
+Optional == {"in", "inl", "g", "sib", "sec", "lnkf", "lnkd", "back", "lnkx", "lnkl", "cap", "lnkz"}
 
 VARIABLES layout, base, req, result, done
 vars == <<layout, base, req, result, done>>
@@ -42,6 +42,7 @@ FS(L) ==
     LET fixed == ( <<>> :> Dir ) @@ ( <<"p">> :> Dir ) @@ ( T :> Dir ) @@
                  ( P(<<"dir">>) :> Dir ) @@ ( P(<<"dir", "sub">>) :> Dir ) @@
                  ( P(<<"dir", "sub", "deep.tex">>) :> File ) @@
+                 ( P(<<"dir", "sub", "deeper">>) :> Dir ) @@
                  ( P(<<"dir2">>) :> Dir ) @@ ( P(<<"out">>) :> Dir ) @@
                  ( P(<<"Dir">>) :> Dir ) @@          \* a neighbour whose name differs from the base directory only in letter case
                  ( P(<<"dlink">>) :> Link(P(<<"dir">>)) )
@@ -51,6 +52,8 @@ FS(L) ==
              @@ opt("g", P(<<"dir", "g">>), File)
              @@ opt("sib", P(<<"dir2", "sib.tex">>), File)
              @@ opt("cap", P(<<"Dir", "cap.tex">>), File)
+             \* a directory link inside the base whose target has another parent than the link: lnkz/../deep is dir/sub/deep.tex
+             @@ opt("lnkz", P(<<"dir", "lnkz">>), Link(P(<<"dir", "sub", "deeper">>)))
              @@ opt("sec", P(<<"out", "secret.tex">>), File)
              @@ opt("lnkf", P(<<"dir", "lnkf">>), Link(P(<<"out", "secret.tex">>)))
              @@ opt("lnkd", P(<<"dir", "lnkd">>), Link(P(<<"out">>)))
